@@ -475,7 +475,7 @@ fn count_bp_bits(bp_words: &[u64]) -> usize {
     let total_ones: usize = bp_words.iter().map(|w| w.count_ones() as usize).sum();
     // Each node has one open and one close, so total bits = opens + closes = 2 * opens
     // But this is approximate - the actual length should be tracked during build
-    total_ones * 2
+    (total_ones * 2).min(bp_words.len() * 64)
 }
 
 // ============================================================================
